@@ -141,11 +141,11 @@ func (f *fileStorage) filePathToFile(file string) string {
 // tempFileCount numbers the temporary files of this process
 var tempFileCount uint64
 
-// tempFilePathToFile returns the path of a new temporary file which is used to write the value for key
+// tempFilePathToFile returns the path of a new temporary file which is used to write the value for key.
+// The name does not contain the key: a key which fits in a file name can always be written.
 func (f *fileStorage) tempFilePathToFile(key string) string {
-	fname := removeInvalidFileNameCharacters(key)
 	n := atomic.AddUint64(&tempFileCount, 1)
-	return filepath.Join(f.dir(), fmt.Sprintf("%s%s-%d-%d", tempFilePrefix, fname, os.Getpid(), n))
+	return filepath.Join(f.dir(), fmt.Sprintf("%s%d-%d", tempFilePrefix, os.Getpid(), n))
 }
 
 func (f *fileStorage) fileForRead(key string) (*os.File, error) {
